@@ -453,7 +453,6 @@ func streamLeak(c *ctx) {
 	c.w.Notes = append(c.w.Notes, "leak stream: socket descriptors (/proc/self/fd) and goroutines before and after batches of 12 calls over all paths with silence / late / stray / refused / stalled behaviours plus two discoveries, one listen start/stop cycle and three listens that fail because the port is taken")
 }
 
-
 // slowConnect: a TCP controller whose handshake is slow - its accept queue (listen backlog 0) is full when the first
 // SYN arrives, the kernel drops it and the client's retransmission a second later gets through once the queue has been
 // drained - and which then never answers. The time spent connecting is part of the one timeout: the call must fail one
